@@ -247,8 +247,8 @@ impl Check for C11 {
     }
     fn episodes(&self, tier: Tier) -> u64 {
         match tier {
-            Tier::Quick => 40_000,
-            Tier::Thorough => 2_000_000,
+            Tier::Quick => 150_000,
+            Tier::Thorough => 6_000_000,
         }
     }
 
